@@ -216,13 +216,18 @@ class sptenmat:
         vals = None
         if isinstance(array, np.ndarray):
             vals = np.expand_dims(array[array.nonzero()], axis=1)
+            subs = np.vstack(array.nonzero()).transpose()
         elif sparse.issparse(array):
-            vals = np.expand_dims(array.tocoo(False).data, axis=1)
+            # take subscripts and values from the same stored entries
+            # (array.nonzero() drops explicitly stored zeros, .data does not)
+            coo = array.tocoo(False)
+            keep = coo.data != 0
+            vals = np.expand_dims(coo.data[keep], axis=1)
+            subs = np.vstack([coo.row[keep], coo.col[keep]]).transpose()
         else:
             raise ValueError(
                 f"Expected sparse matrix or array but received: {type(array)}"
             )
-        subs = np.vstack(array.nonzero()).transpose()
         return ttb.sptenmat(subs, vals, rdims, cdims, tshape)
 
     @property
